@@ -1,8 +1,277 @@
-//! C07 runner (stub). Replace the body; keep the signature `pub fn run(args: &[String])`.
-#[allow(unused_imports)]
-use crate::common::{catch, each_line, opt_i64};
+//! C07 runner: the type of an arithmetic/comparison expression in every phase of the REAL compiler.
+//! Input line: `<kind>\t<expr with a,b:int x,y:float>\t<same expr with consts CI,CF>[\t<op>]`
+//!   kind = expr | cmp | compound (then 4th field is the compound operator, e.g. `/=`, and the
+//!   expression is the right-hand side; the target is `zi: int` and `zf: float`)
+//! Output for expr/cmp: `chk const ir rust accI accF` with codes 0 int, 1 float, 2 bool,
+//!   7 rejected/ill-typed, 8 other type, 9 unknown;  for compound: `accI rustI accF rustF`.
+use crate::common::{catch, each_line};
+use incan::backend::ir::{AstLowering, IrCodegen, IrDeclKind, IrStmtKind, IrType};
+use incan::frontend::symbols::ResolvedType;
+use incan::frontend::typechecker::TypeChecker;
+use incan_syntax::ast::{Declaration, Program, Statement};
+
+fn parse(src: &str) -> Result<Program, String> {
+    let tokens = incan_syntax::lexer::lex(src).map_err(|e| format!("lex: {:?}", e.first().map(|x| x.message.clone())))?;
+    incan_syntax::parser::parse(&tokens).map_err(|e| format!("parse: {:?}", e.first().map(|x| x.message.clone())))
+}
+
+fn code_res(t: &ResolvedType) -> u8 {
+    match t {
+        ResolvedType::Int => 0,
+        ResolvedType::Float => 1,
+        ResolvedType::Bool => 2,
+        ResolvedType::Unknown => 9,
+        _ => 8,
+    }
+}
+
+fn code_ir(t: &IrType) -> u8 {
+    match t {
+        IrType::Int => 0,
+        IrType::Float => 1,
+        IrType::Bool => 2,
+        IrType::Unknown => 9,
+        _ => 8,
+    }
+}
+
+fn accepted(src: &str) -> bool {
+    match parse(src) {
+        Ok(p) => TypeChecker::new().check_program(&p).is_ok(),
+        Err(_) => false,
+    }
+}
+
+// ---- a small Rust typer for the emitted expression (i64 / f64 / bool) ----
+fn rust_ty(e: &syn::Expr) -> Option<u8> {
+    use syn::{BinOp, Expr, Lit, UnOp};
+    match e {
+        Expr::Lit(l) => match &l.lit {
+            Lit::Int(i) => match i.suffix() {
+                "" | "i64" => Some(0),
+                _ => None,
+            },
+            Lit::Float(_) => Some(1),
+            Lit::Bool(_) => Some(2),
+            _ => None,
+        },
+        Expr::Path(p) => match p.path.get_ident().map(|i| i.to_string()).as_deref() {
+            Some("a") | Some("b") | Some("zi") => Some(0),
+            Some("x") | Some("y") | Some("zf") => Some(1),
+            _ => None,
+        },
+        Expr::Paren(p) => rust_ty(&p.expr),
+        Expr::Group(g) => rust_ty(&g.expr),
+        Expr::Unary(u) => match u.op {
+            UnOp::Neg(_) => rust_ty(&u.expr).filter(|t| *t < 2),
+            UnOp::Not(_) => rust_ty(&u.expr).filter(|t| *t == 2),
+            _ => None,
+        },
+        Expr::Cast(c) => {
+            let inner = rust_ty(&c.expr)?;
+            let to = quote::ToTokens::to_token_stream(&c.ty).to_string();
+            match (inner, to.as_str()) {
+                (0 | 1, "f64") => Some(1),
+                (0 | 1, "i64") => Some(0),
+                (0 | 1, "u32") => Some(5), // only valid as the argument of pow
+                _ => None,
+            }
+        }
+        Expr::Binary(b) => {
+            let l = rust_ty(&b.left)?;
+            let r = rust_ty(&b.right)?;
+            match b.op {
+                BinOp::Add(_) | BinOp::Sub(_) | BinOp::Mul(_) | BinOp::Div(_) | BinOp::Rem(_) => {
+                    if l == r && l < 2 { Some(l) } else { None }
+                }
+                BinOp::Eq(_) | BinOp::Ne(_) | BinOp::Lt(_) | BinOp::Le(_) | BinOp::Gt(_) | BinOp::Ge(_) => {
+                    if l == r && l < 2 { Some(2) } else { None }
+                }
+                _ => None,
+            }
+        }
+        Expr::Call(c) => {
+            let f = quote::ToTokens::to_token_stream(&c.func).to_string().replace(' ', "");
+            let args: Vec<Option<u8>> = c.args.iter().map(rust_ty).collect();
+            if args.len() != 2 {
+                return None;
+            }
+            let (l, r) = (args[0]?, args[1]?);
+            let num = |t: u8| t < 2;
+            match f.as_str() {
+                "incan_stdlib::num::py_div" if num(l) && num(r) => Some(1),
+                "incan_stdlib::num::py_mod" | "incan_stdlib::num::py_floor_div" if num(l) && num(r) => {
+                    Some(if l == 0 && r == 0 { 0 } else { 1 })
+                }
+                "incan_stdlib::num::py_mod_i64" | "incan_stdlib::num::py_floor_div_i64" if l == 0 && r == 0 => Some(0),
+                "incan_stdlib::num::py_mod_f64" | "incan_stdlib::num::py_floor_div_f64" if l == 1 && r == 1 => Some(1),
+                _ => None,
+            }
+        }
+        Expr::MethodCall(m) => {
+            let recv = rust_ty(&m.receiver)?;
+            let name = m.method.to_string();
+            if m.args.len() != 1 {
+                return None;
+            }
+            let a = rust_ty(&m.args[0])?;
+            match (name.as_str(), recv, a) {
+                ("pow", 0, 5) => Some(0),
+                ("powf", 1, 1) => Some(1),
+                _ => None,
+            }
+        }
+        _ => None,
+    }
+}
+
+/// Find `let <name> ... = <expr>;` or `<name> = <expr>;` in fn f of the generated Rust.
+fn find_rust_expr(rust: &str, name: &str, assign: bool) -> Option<syn::Expr> {
+    let file = syn::parse_file(rust).ok()?;
+    for it in &file.items {
+        if let syn::Item::Fn(f) = it {
+            if f.sig.ident != "f" {
+                continue;
+            }
+            for st in &f.block.stmts {
+                match st {
+                    syn::Stmt::Local(l) if !assign => {
+                        let pat = quote::ToTokens::to_token_stream(&l.pat).to_string();
+                        if pat.split_whitespace().any(|w| w == name) {
+                            return l.init.as_ref().map(|i| (*i.expr).clone());
+                        }
+                    }
+                    syn::Stmt::Expr(syn::Expr::Assign(a), _) if assign => {
+                        let lhs = quote::ToTokens::to_token_stream(&a.left).to_string();
+                        if lhs.trim() == name {
+                            return Some((*a.right).clone());
+                        }
+                    }
+                    _ => {}
+                }
+            }
+        }
+    }
+    None
+}
+
+fn fn_prog(body: &str) -> String {
+    format!("def f(a: int, b: int, x: float, y: float) -> None:\n{}", body)
+}
+
+fn phases(expr: &str, cexpr: &str) -> String {
+    // --- checker + lowering + emission on `v = <expr>` ---
+    let src = fn_prog(&format!("    v = {}\n", expr));
+    let prog = match parse(&src) {
+        Ok(p) => p,
+        Err(e) => return format!("7 7 7 7 0 0 {}", e),
+    };
+    let mut tc = TypeChecker::new();
+    let ok = tc.check_program(&prog).is_ok();
+    let mut chk = 7u8;
+    let mut span = None;
+    for d in &prog.declarations {
+        if let Declaration::Function(f) = &d.node {
+            for st in &f.body {
+                if let Statement::Assignment(a) = &st.node {
+                    span = Some(a.value.span);
+                }
+            }
+        }
+    }
+    if let Some(sp) = span {
+        if let Some(t) = tc.type_info().expr_type(sp) {
+            chk = code_res(t);
+        }
+    }
+    if !ok {
+        chk = 7;
+    }
+    let mut ir = 7u8;
+    let mut rust = 7u8;
+    let mut emitted = String::new();
+    if ok {
+        let mut lowering = AstLowering::new_with_type_info(tc.type_info().clone());
+        if let Ok(irp) = lowering.lower_program(&prog) {
+            for d in &irp.declarations {
+                if let IrDeclKind::Function(f) = &d.kind {
+                    if f.name == "f" {
+                        for st in &f.body {
+                            match &st.kind {
+                                IrStmtKind::Let { value, .. } => ir = code_ir(&value.ty),
+                                IrStmtKind::Assign { value, .. } => ir = code_ir(&value.ty),
+                                _ => {}
+                            }
+                        }
+                    }
+                }
+            }
+        }
+        let gen = IrCodegen::new().try_generate(&prog);
+        if let Err(e) = &gen {
+            rust = 6;
+            emitted = format!("codegen error: {}", e).replace('\n', " ");
+        }
+        if let Ok(text) = gen {
+            if syn::parse_file(&text).is_err() {
+                rust = 6; // the emitted Rust is not even syntactically valid
+                emitted = text.lines().find(|l| l.trim_start().starts_with("let v")).unwrap_or("").trim().to_string();
+            } else if let Some(e) = find_rust_expr(&text, "v", false) {
+                rust = rust_ty(&e).filter(|t| *t < 3).unwrap_or(7);
+                emitted = quote::ToTokens::to_token_stream(&e).to_string();
+            }
+        }
+    }
+    // --- const evaluator: which annotation does `const K: T = <cexpr>` accept ---
+    let cpre = "const CI: int = 3\nconst CF: float = 2.5\n";
+    let ci = accepted(&format!("{}const K: int = {}\n", cpre, cexpr));
+    let cf = accepted(&format!("{}const K: float = {}\n", cpre, cexpr));
+    let cb = accepted(&format!("{}const K: bool = {}\n", cpre, cexpr));
+    let cst = match (ci, cf, cb) {
+        (true, false, false) => 0,
+        (false, true, false) => 1,
+        (false, false, true) => 2,
+        (false, false, false) => 7,
+        _ => 8,
+    };
+    // --- annotated bindings ---
+    let acc_i = accepted(&fn_prog(&format!("    v: int = {}\n", expr))) as u8;
+    let acc_f = accepted(&fn_prog(&format!("    v: float = {}\n", expr))) as u8;
+    format!("{} {} {} {} {} {} | {}", chk, cst, ir, rust, acc_i, acc_f, emitted)
+}
+
+fn compound(expr: &str, op: &str) -> String {
+    let mut out = Vec::new();
+    for (var, init) in [("zi", "mut zi: int = 1"), ("zf", "mut zf: float = 1.5")] {
+        let src = fn_prog(&format!("    {}\n    {} {} {}\n", init, var, op, expr));
+        let prog = match parse(&src) {
+            Ok(p) => p,
+            Err(e) => return format!("0 7 0 7 {}", e),
+        };
+        let ok = TypeChecker::new().check_program(&prog).is_ok();
+        let mut rust = 7u8;
+        if ok {
+            if let Ok(text) = IrCodegen::new().try_generate(&prog) {
+                if syn::parse_file(&text).is_err() {
+                    rust = 6;
+                } else if let Some(e) = find_rust_expr(&text, var, true) {
+                    rust = rust_ty(&e).filter(|t| *t < 3).unwrap_or(7);
+                }
+            }
+        }
+        out.push(format!("{} {}", ok as u8, rust));
+    }
+    out.join(" ")
+}
 
 pub fn run(_args: &[String]) {
-    eprintln!("c07: runner not implemented");
-    std::process::exit(2);
+    each_line(|line| {
+        let p: Vec<&str> = line.split('\t').collect();
+        let r = catch(|| match p[0] {
+            "expr" | "cmp" => phases(p[1], p[2]),
+            "compound" => compound(p[1], p[3]),
+            _ => "bad-kind".to_string(),
+        });
+        r.unwrap_or_else(|m| format!("PANIC {}", m))
+    });
 }
